@@ -231,8 +231,11 @@ func init() {
 		st.waiters = nil
 		return nil
 	})
-	// sync.Pool: no reuse
+	// sync.Pool: no reuse (unless the harness called verifPoolReuse(): intr_C30c.go)
 	reg("(*sync.Pool).Get", func(in *Interp, fr *frame, a []value) value {
+		if r, ok := poolReuseGet(in, fr, a); ok {
+			return r
+		}
 		st := (*a[0].(*value)).(structure)
 		for i := len(st) - 1; i >= 0; i-- {
 			switch f := st[i].(type) {
@@ -248,7 +251,10 @@ func init() {
 		}
 		return iface{}
 	})
-	reg("(*sync.Pool).Put", func(in *Interp, fr *frame, a []value) value { return nil })
+	reg("(*sync.Pool).Put", func(in *Interp, fr *frame, a []value) value {
+		poolReusePut(in, fr, a)
+		return nil
+	})
 
 	// ---- sync/atomic ---------------------------------------------------
 	for _, ty := range []struct {
